@@ -194,10 +194,94 @@ def index_family(ctx, rng, quick):
         batch.cleanup()
 
 
+def _denoted(v):
+    return b"".join(bytes([ord(c)]) if ord(c) < 256 else c.encode("utf-8") for c in v)
+
+
+def constant_family(ctx, rng, quick):
+    """string constants (defaults, assignments among the start actions, assignments after a match) with characters of one, two and
+    three stored bytes, several assignments to one string before the first byte arrives, in every storage mode with a leak check:
+    accepted iff the stored bytes fit, then exactly those bytes, that length, a terminator, no block lost."""
+    vals = ["a", "ab", "abc", "\u00e9", "\u20ac", "\u00e9\u20ac", "x\u20ac", "\u65e5\u672c", "abcd\u20ac", ""]
+    entries = []
+    for _ in range(14 if quick else 100):
+        cap = rng.choice([3, 4, 5, 8, 8, 12])
+        d, x, y, z, w = (rng.choice(vals) for _ in range(5))
+        has_d = rng.random() < 0.4
+        nstart = rng.choice([0, 1, 2, 2, 3])
+        starts = [x, y, z][:nstart]
+        src = "out str[%d] s%s;\nout str[%d] t;\nparser {\n" % (cap, (' = "%s"' % d) if has_d else "", cap)
+        for v in starts:
+            src += ' s = "%s";\n' % v
+        src += ' t = "%s";\n "x";\n s = "%s";\n "y";\n}\n' % (y, w)
+        used = ([d] if has_d else []) + starts + [y, w]
+        fits = all(len(_denoted(v)) <= cap - 1 for v in used)
+        for row in (rng.sample(STORAGE, 3) if quick else STORAGE):
+            entries.append((src, [rng.choice(["-O0", "-O1", "-O3"])] + row + rng.choice([[], ["-fstrings-as-u8"]]), fits,
+                            {"s0": _denoted(starts[-1] if starts else (d if has_d else "")), "s1": _denoted(w), "t": _denoted(y)}))
+    for chunk in work.chunked(entries, 30):
+        progs = []
+        for i, (src, args, fits, exp) in enumerate(chunk):
+            r = nm.compile_source(src, args, name="p%d" % i)
+            ctx.evaluations += 1
+            ctx.count("constant_family_programs")
+            base = {"nmfu_source": src, "nmfu_args": args}
+            if r.status == "internal":
+                ctx.violation("c03:constant-family-internal:%s" % r.exc_type, "internal error: %s" % (r.exc_msg,), base)
+                continue
+            if r.ok != fits:
+                ctx.violation("c03:constant-accepted-iff-fits:%s" % ("too-long-accepted" if r.ok else "fitting-rejected"),
+                              "constants %s in the declared size but the program was %s (%s)" % ("fit" if fits else "do not fit", r.status, r.exc_msg), base)
+            if r.ok:
+                progs.append(cdrv.Prog(r, meta={"src": src, "args": args, "label": "constant-family", "exp": exp}))
+        if not progs:
+            continue
+        batch = cdrv.Batch(progs).build()
+        runs = []
+        for p in batch.live:
+            for bs, tag in ((b"", "s0"), (b"x", "s1"), (b"xy", "s1")):
+                runs.append(("%s.%s.%d" % (p.name, tag, len(bs)), p, ["QUIETOK 1", "POISON %d" % rng.choice([0xAA, 0xFF, 0x01]), "START"] + (["FEED " + cdrv.hexs(bs)] if bs else []) + ["SNAP", "FREE", "LEAKCHECK"]))
+        res = batch.run(runs, timeout=900)
+        ctx.count("binaries")
+        for rid, run in res.items():
+            p = run.prog
+            tag = rid.split(".")[1]
+            ctx.evaluations += 1
+            ctx.count("runs")
+            ctx.count("constant_family_runs")
+            base = {"nmfu_source": p.meta["src"], "nmfu_args": p.meta["args"], "script": run.script, "c_source": p.source, "c_header": p.header}
+            if run.leak:
+                ctx.violation("c03:leak-after-free:constant-family", "LeakSanitizer reports a leak after free()", dict(base, stderr=run.stderr))
+            if run.leak is not None:
+                ctx.count("leak_checks")
+            if run.abort and run.abort[0] != "watchdog":
+                ctx.count("sanitizer_reports")
+                ctx.violation("c03:" + classify_abort(run, p) + ":constant", "sanitizer report: %s" % (run.abort[1],), dict(base, stderr=run.stderr))
+                continue
+            for inv in run.invariants():
+                ctx.violation("c03:invariant:%s:constant" % inv[1], "driver invariant %s failed for output %s (%d, %d)" % (inv[1], inv[2], inv[3], inv[4]), base)
+                break
+            snap = next((e[1] for e in run.events[::-1] if e[0] == "N"), None)
+            if snap is None:
+                continue
+            d = cdrv.parse_snap(snap)
+            want = {"s": p.meta["exp"][tag], "t": p.meta["exp"]["t"]}
+            for k, v in want.items():
+                got = d.get(k)
+                ctx.count("constants_checked")
+                ctx.nontrivial((p.meta["src"], tuple(p.meta["args"]), rid.split(".", 1)[1], k))
+                if got is None or got[0] != len(v) or got[1][:got[0]] != v:
+                    if got is not None and got[3] and not v:
+                        continue    # never written on-demand string: NULL, length 0
+                    ctx.violation("c03:constant-stored-wrong", "string %s holds %r, the constant denotes %r (%d bytes)" % (k, got, v, len(v)), dict(base, snapshot=snap))
+        batch.cleanup()
+
+
 def run(ctx: Ctx):
     rng = ctx.rng
     quick = ctx.quick
     index_family(ctx, rng, quick)
+    constant_family(ctx, rng, quick)
     n_gen = 30 if quick else 250
     rows_per = 4 if quick else 20
     sink = contracts.Sink()
@@ -322,6 +406,7 @@ def run(ctx: Ctx):
     ctx.floor("set_string_contract_evaluations", 30)
     ctx.floor("leak_checks", 50)
     ctx.floor("index_reads_checked", 300)
+    ctx.floor("constants_checked", 60)
     ctx.inconclusive_if(len(modes_seen) < 6, "fewer than 6 storage mode sets were built")
     ctx.rule = ("case = (program, storage-mode set, input, hostile call history: poisoned state, random chunking, calls after a terminal "
                 "result, end(), free twice, start/free cycles); non-trivial = some string/raw output became non-empty; distinct by "
